@@ -18,6 +18,7 @@ RULE = (
     "renumbering) with a random polynomial; non-trivial = polynomial degree>=1 on a mesh with >=2 "
     "elements; distinct = sha1 of the serialised case. rank: generated connected meshes with >=2 "
     "elements per element type."
+    ' mesh_rules: every documented rule requested by point count on an affine mesh of every element type; returned_arrays: in-place use of the arrays a rule returns, every (type, matrix type) pair (non-trivial = every case).'
 )
 ASSUMPTIONS = [
     "documented degree taken from the docstrings of Gauss._Triangle/_Quadrangle/_Tetrahedron/"
